@@ -1,5 +1,5 @@
 """
-Heap snapshots with lazily instantiated frame facts.
+Heap snapshots with lazily instantiated frame facts and footprint versions.
 
 A Heap is a record of z3 arrays (see core.HEAP_FIELDS); per-object rows are
 nested arrays.  Ordinary writes are explicit Store terms.  A *havoc*
@@ -9,13 +9,22 @@ snapshot".  The rule is not asserted as a quantified axiom: every read that
 goes through Heap.read instantiates it at the indices read (manual
 E-matching), which keeps all VCs ground and lets the solver answer `sat` with
 a model for refuted obligations.
+
+Footprint versions: heap-dependent spec functions (root_of, depth, conf, ...)
+declare the attribute names they read.  Each snapshot carries one version term
+per tracked name ('[]' = contents of lists, '{}' = contents of dicts); a write
+to an attribute of that name (or a havoc that does not promise to preserve it)
+replaces the version by a fresh one.  A spec function applied in two snapshots
+with equal versions denotes the same function - that is its frame rule.
 """
 
 from __future__ import annotations
 
 import z3
 
-from .core import HEAP_FIELDS, NESTED, fresh
+from .core import HEAP_FIELDS, NESTED, IntS, fresh
+
+TRACKED = set()  # attribute names some SpecFn reads (filled by contracts.SpecFn)
 
 
 def sel(arr, idx):
@@ -26,46 +35,94 @@ def sel(arr, idx):
 
 
 class Heap:
-    __slots__ = ("cur", "base", "rule", "tag")
+    __slots__ = ("cur", "base", "rule", "tag", "ver")
 
-    def __init__(self, cur, base=None, rule=None, tag=""):
+    def __init__(self, cur, base=None, rule=None, tag="", ver=None):
         self.cur = dict(cur)
         self.base = dict(base) if base is not None else dict(cur)
         # None | (parent Heap, condfn(field, idx) -> z3 Bool | None, fieldset)
         self.rule = rule
         self.tag = tag
+        self.ver = dict(ver) if ver is not None else {}
 
     @staticmethod
     def fresh(tag="H"):
         cur = {k: fresh(f"{tag}_{k}", s) for k, s in HEAP_FIELDS.items()}
-        return Heap(cur, tag=tag)
+        ver = {n: fresh("ver_" + n, IntS) for n in sorted(TRACKED)}
+        return Heap(cur, tag=tag, ver=ver)
 
-    def havoc(self, condfn, tag="Hv", fields=None):
+    def version(self, name):
+        if name not in self.ver:
+            self.ver[name] = z3.Const("ver0_" + name, IntS)
+        return self.ver[name]
+
+    def _bumped(self, field, idx):
+        """versions after a write to (field, idx)"""
+        if not self.ver:
+            return self.ver
+        ver = dict(self.ver)
+        if field in ("fld", "has"):
+            if len(idx) == 2:
+                nm = z3.simplify(idx[1])
+                if z3.is_string_value(nm):
+                    s = nm.as_string()
+                    if s in ver:
+                        ver[s] = fresh("ver_" + s, IntS)
+                else:
+                    for s in list(ver):
+                        if s not in ("[]", "{}"):
+                            ver[s] = z3.If(nm == z3.StringVal(s), fresh("ver_" + s, IntS), ver[s])
+            else:
+                for s in list(ver):
+                    if s not in ("[]", "{}"):
+                        ver[s] = fresh("ver_" + s, IntS)
+        elif field in ("llen", "lelem"):
+            if "[]" in ver:
+                ver["[]"] = fresh("ver_list", IntS)
+        elif field in ("dhas", "dval", "dklen", "dkey"):
+            if "{}" in ver:
+                ver["{}"] = fresh("ver_dict", IntS)
+        return ver
+
+    def havoc(self, condfn, tag="Hv", fields=None, preserves=()):
         """New snapshot: the listed fields (default all) get fresh base arrays;
         where condfn(field, idx) holds they equal this snapshot.  For nested
         fields condfn is first asked with idx=(a,) (whole row unchanged?) and,
-        if that yields None, with idx=(a, k).  None = no information."""
+        if that yields None, with idx=(a, k).  None = no information.
+        Versions of tracked names not in `preserves` become fresh."""
         flds = frozenset(HEAP_FIELDS if fields is None else fields)
         cur = dict(self.cur)
         base = dict(self.base)
         for k in flds:
             cur[k] = fresh(f"{tag}_{k}", HEAP_FIELDS[k])
             base[k] = cur[k]
-        return Heap(cur, base, (self, condfn, flds), tag=tag)
+        ver = {}
+        for n, v in self.ver.items():
+            ver[n] = v if n in preserves else fresh("ver_" + ("list" if n == "[]" else "dict" if n == "{}" else n), IntS)
+        return Heap(cur, base, (self, condfn, flds), tag=tag, ver=ver)
 
-    def store(self, field, idx, value):
+    def store(self, field, idx, value, bump=True):
+        if not bump:
+            cur = dict(self.cur)
+            arr = self.cur[field]
+            if len(idx) == 1:
+                cur[field] = z3.Store(arr, idx[0], value)
+            else:
+                cur[field] = z3.Store(arr, idx[0], z3.Store(z3.Select(arr, idx[0]), idx[1], value))
+            return Heap(cur, self.base, self.rule, self.tag, self.ver)
         cur = dict(self.cur)
         arr = self.cur[field]
         if len(idx) == 1:
             cur[field] = z3.Store(arr, idx[0], value)
         else:
             cur[field] = z3.Store(arr, idx[0], z3.Store(z3.Select(arr, idx[0]), idx[1], value))
-        return Heap(cur, self.base, self.rule, self.tag)
+        return Heap(cur, self.base, self.rule, self.tag, self._bumped(field, idx))
 
-    def with_array(self, field, term):
+    def with_array(self, field, term, bump=True):
         cur = dict(self.cur)
         cur[field] = term
-        return Heap(cur, self.base, self.rule, self.tag)
+        return Heap(cur, self.base, self.rule, self.tag,
+                    self._bumped(field, (None,)) if bump else self.ver)
 
     def read(self, field, idx, facts):
         """Select + frame facts for this location (appended to `facts`)."""
